@@ -94,10 +94,16 @@ func TestC06(t *testing.T) {
 		agg.AddHist(res)
 	}
 	exploreE2(t, run, agg)
+	// seam R: the real QUIC transport under the real controller
+	dR := 5
+	if !run.Quick() {
+		dR = 7
+	}
+	agg.AddHist(hist.BFS(t, realSeamConfig(dR, run.Deadline())))
 	agg.Finish(false)
 	run.Cov["violations_dropped_as_not_reproducible"] = unconfirmed
 	run.Assumptions = append(run.Assumptions,
-		"E3: event orders are explored, not interleavings inside one event's settling (callbacks are delivered one at a time, each followed by quiescence); the concurrent-callback seam (E2) and the QUIC-backed seam B are not covered",
+		"E3: event orders are explored, not interleavings inside one event's settling (callbacks are delivered one at a time, each followed by quiescence); the concurrent-callback seam is E2; seam R runs the real QUIC transport (two peers sharing one address, either may connect to L) in a bubble with 120 s ticks",
 		"states are de-duplicated on the dump of model, link tables, GetPeerLinks, lookup values, Close flags and live directive instances",
 		"virtual time does not advance: hold-open expiry of idle links is not part of this search")
 	run.Finish(t)
